@@ -13,6 +13,8 @@ pub struct Facts {
     pub synthesised_id_collision: bool,
     /// Duplicate operationIds where one was written by the user: outside the domain.
     pub explicit_id_duplicate: bool,
+    /// The duplicated ids that do not all follow the synthesis rule, with their uses.
+    pub other_duplicates: Vec<(String, String)>,
 }
 
 fn resolve_pointer<'a>(doc: &'a Value, reference: &str) -> Option<&'a Value> {
@@ -169,6 +171,7 @@ pub fn validate(doc: &Value) -> Result<Facts, (String, String)> {
                 return Err(("c03:duplicate-operation-id".to_owned(), format!("operationId {id:?} is used by {uses:?}")));
             }
             facts.explicit_id_duplicate = true;
+            facts.other_duplicates.push((id.clone(), format!("{uses:?}")));
         }
     }
     Ok(facts)
